@@ -104,6 +104,13 @@ package flood
 
 //@ guarded Flooder.mu: seenCache
 
+//@ func NewFlooder
+//@ prop C15
+//@ modifies *
+//@ ensures result != nil && result.cfg.MaxHops == cfg.MaxHops && result.localID == localID
+//@ fieldwritesonly[C15] Flooder.cfg: NewFlooder
+//@ note C15: the hop limit read by HandleRouteAdvertise is the one the flooder was built with
+
 //@ func (*Flooder).HandleRouteAdvertise
 //@ prop C11 C13 C15
 //@ modifies *
